@@ -12,6 +12,12 @@ fold or a sloppy lexer would rewrite, together with the names they would be rewr
 inside a short evaluation HISTORY on one engine (a reused Statement on another document; the SAME host document object
 evaluated, updated in place by the host, evaluated again - same or freshly parsed Statement) and the LAST result is
 the one compared.
+Names also come from the vocabulary a Python implementation uses for its own parameters (value, self, context, engine,
+args, kwargs, name, key ...); values include the ones the host language takes for equal (1 / true / 1.0, 0 / false / 0.0 /
+-0.0, '' / null) side by side - as literals, document leaves and arguments of repeated calls of one def-ined function /
+lambda - and results that hold lazy sequences, produced twice.  Results are compared with their types at every depth
+(`typed`): Python's `==` is never used on results.  An evaluation that RAISES (any exception class: TypeError,
+AttributeError, KeyError ...) where the references return a value is an oracle failure like any other difference.
 Oracle (failing input): real differs from ref and the model does not side with real.
 Mismatch (tie broken): the model differs from real although ref agrees with real (a slip in the
 model), or ref is the odd one out (a slip in the transcription)."""
@@ -33,12 +39,14 @@ REQUIRED_THEOREMS = ['Yaql.Props.C04.' + n for n in (
     'frame frame_root sibling_independence shadowing shadowing_let unknown_null dollar_alias lambda_binds_innermost '
     'lambda_dollar get_argFrame with_numbering closure_lexical closure_lexical_args ucall_eq no_leak_arg no_leak_lambda '
     'no_leak_callee member_maps fuel_mono empty_frame_invisible let_names_verbatim let_other_name kwarg_names_verbatim '
-    'def_names_verbatim normName_inj_plain').split()]
+    'def_names_verbatim normName_inj_plain def_call_pure def_call_own_args def_calls_independent def_then_call '
+    'def_identity_faithful def_identity_injective').split()]
 TRUSTED = ['harness/evalref.py (plain-Python transcription of the language reference, second opinion for every case)',
            'harness/evalgen.py: the renderer AST -> yaql text (every generated text is parsed back by the engine under '
            'test and compared with the AST that goes to the model)']
-ASSUMPTIONS = ['model gap: a nameless unpack() over a lazy source that raises beyond its first element is outside the model (notes/C04.md); the generator does not produce it',
-               'documents are JSON-like: null / bool / int / str, lists, dicts with string keys (no floats, sets, host objects)',
+ASSUMPTIONS = ['documents are JSON-like: null / bool / int / float / str, lists, dicts with string keys (no sets, host objects); floats pass '
+               'through the model (literals, document leaves, arguments, results, keys, `=`, `+`, sort keys) while `-`, `*`, unary '
+               '`-` and the order comparisons on floats are predicted by the transcription only (model: out of domain)',
                'functions of the fragment: let with def unpack list dict select where selectMany orderBy orderByDescending '
                'takeWhile skipWhile indexWhere toDict aggregate sum first toList take skip get len any all; operators '
                '+ - * = != < <= > >= and or not unary-; anything else is outside the model',
@@ -86,7 +94,7 @@ def perturb(v):
     """another document of the same shape (what a reused statement saw before)"""
     if isinstance(v, bool) or v is None:
         return v
-    if isinstance(v, int):
+    if isinstance(v, (int, float)):
         return v + 3
     if isinstance(v, str):
         return v + 'x'
@@ -117,9 +125,11 @@ def earlier(rng, v):
             out.append(rng.choice((0, 'x', None)))               # an element the host pops later
         return tuple(out)
     if isinstance(v, bool):
-        return not v
+        return rng.choice((not v, not v, int(v), float(v)))
     if isinstance(v, int):
-        return v + rng.choice((1, 3, -2))
+        return rng.choice((v + 1, v + 3, v - 2, float(v), v == 1))        # (also: the equal value of another type)
+    if isinstance(v, float):
+        return rng.choice((v + 1, int(v), -v, v == 1))
     if isinstance(v, str):
         return rng.choice((v + 'x', '', 7))
     return rng.choice((0, None, 'was'))
@@ -156,7 +166,7 @@ def _ordered(v):
         return ('d', [(k, _ordered(x)) for k, x in v.items()])
     if isinstance(v, (list, tuple)):
         return ('l', [_ordered(x) for x in v])
-    return (type(v).__name__, v)
+    return (type(v).__name__, repr(v))
 
 
 REUSE_MODES = ('single', 'single', 'single', 'single', 'single', 'statement-on-another-document',
@@ -299,26 +309,39 @@ def dec_value(j):
     (k, x), = j.items()
     if k == 'i':
         return int(x)
+    if k == 'f':
+        return values.bits2f(x)
     if k == 's':
         return ''.join(chr(c) for c in x)
     if k in ('tu', 'li', 'it'):
         return [dec_value(t) for t in x]
     if k == 'd':
-        return {dec_value(a): dec_value(b) for a, b in x}
+        # NOT a Python dict: it would merge the keys 1 / true / 1.0 of a (wrong) model result into one
+        return Pairs((dec_value(a), dec_value(b)) for a, b in x)
     raise ValueError(j)
+
+
+class Pairs(list):
+    """the entries of a dictionary the model returned, as they crossed the wire"""
 
 
 # ------------------------------------------------------------------ comparison
 
 def typed(x):
-    """results compared with their types (1 is not true), lists and tuples alike, dicts as maps"""
+    """results compared with their TYPES at every depth: 1, true and 1.0 are three values (Python's `[1] == [True] ==
+    [1.0]` and `{1: 0} == {True: 0}` must not be used anywhere on this path), 0.0 and -0.0 are two (floats by their bits);
+    lists and tuples alike, dicts as maps from typed keys"""
+    if isinstance(x, Pairs):
+        return ('D', tuple(sorted(((typed(k), typed(v)) for k, v in x), key=repr)))
     if isinstance(x, (list, tuple)):
         return ('L', tuple(typed(y) for y in x))
     if isinstance(x, dict):
         return ('D', tuple(sorted(((typed(k), typed(v)) for k, v in x.items()), key=repr)))
+    if isinstance(x, float):
+        return ('float', values.fbits(x))
     if x is None or isinstance(x, (bool, int, str)):
-        return (type(x).__name__, x)
-    return ('?', type(x).__name__)
+        return (type(x).__name__, repr(x))
+    return ('?', type(x).__name__, repr(x))
 
 
 def same(a, b):
@@ -336,11 +359,24 @@ def agree(real, other):
     return same(real, other)
 
 
+def show_value(v):
+    """JSON-like text that tells 1 / true / 1.0 / -0.0 apart, also as dictionary keys"""
+    if isinstance(v, Pairs):
+        return '{' + ', '.join(sorted('%s: %s' % (show_value(k), show_value(x)) for k, x in v)) + '}'
+    if isinstance(v, dict):
+        return '{' + ', '.join(sorted('%s: %s' % (show_value(k), show_value(x)) for k, x in v.items())) + '}'
+    if isinstance(v, (list, tuple)):
+        return '[' + ', '.join(show_value(x) for x in v) + ']'
+    if v is None or isinstance(v, (bool, int, float, str)):
+        return json.dumps(v)
+    return repr(v)
+
+
 def show(r):
     if r is None:
         return 'no-model'
     if r[0] == 'ok':
-        return 'ok %s' % json.dumps(r[1], default=repr, sort_keys=True)
+        return 'ok %s' % show_value(r[1])
     if r[0] == 'err':
         return 'raises ' + r[1]
     if r[0] == 'ctx':
@@ -458,6 +494,10 @@ REGRESSIONS = [
     ('the selector of an ordering runs inside the comparisons', "[1].orderBy($.foo)", [1]),
     ('a generator raises only when it is consumed', "[1, 'a'].select($ + 1).first()", 2),
     ('len does not accept an ordering', "[2, 1].orderBy($).len()", ('err', 'NoMatchingMethodException')),
+    ('unpack() without names consumes the whole source', "[1, 'a'].select($ + 1).unpack() -> $1", ('err', 'NoMatchingFunctionException')),
+    ('unpack(names) looks at len(names) + 1 elements', "[1, 'a'].select($ + 1).unpack(x) -> $x", ('err', 'NoMatchingFunctionException')),
+    ('unpack(names) looks at len(names) + 1 elements', "[1, 2, 'a'].select($ + 1).unpack(x) -> $x", ('err', 'ValueError')),
+    ('unpack(names) looks at len(names) + 1 elements', "[1, 'a'].select($ + 1).unpack(x, y) -> $x", ('err', 'NoMatchingFunctionException')),
 ]
 
 
@@ -512,9 +552,11 @@ def shrink_doc_candidates(doc):
     return out
 
 
-def shrink(ast, doc, drv, kind, tag=None, mode=None, budget=400):
+def shrink(ast, doc, drv, kind, tag=None, mode=None, budget=400, doc_budget=120):
     changed = True
-    while changed and budget > 0:
+    if isinstance(doc, dict) and doc and fails(ast, {}, drv, kind, tag, mode):
+        doc = {}                            # the document plays no role
+    while changed and (budget > 0 or doc_budget > 0):
         changed = False
         for cand in evalgen.shrink_candidates(ast):
             if evalgen.size(cand) >= evalgen.size(ast):
@@ -527,9 +569,9 @@ def shrink(ast, doc, drv, kind, tag=None, mode=None, budget=400):
                 break
         if changed:
             continue
-        for cand in shrink_doc_candidates(doc):
-            budget -= 1
-            if budget <= 0:
+        for cand in ([{}] if isinstance(doc, dict) and doc else []) + shrink_doc_candidates(doc):
+            doc_budget -= 1                 # (its own budget: a long program must not leave the document unshrunk)
+            if doc_budget <= 0:
                 break
             if fails(ast, cand, drv, kind, tag, mode):
                 doc, changed = cand, True
@@ -589,7 +631,7 @@ def work(args):
     rng = common.make_rng(seed, 'C04/%d' % idx)
     drv = common.Driver() if use_model else None
     out = dict(cases=[], failures=[], n=0, traces=0, outcome={}, errs={}, depth={}, size={}, types={}, constructs={},
-               pairs={}, ood_ref=0, ood_model=0, parse_diff=[], sample=None, modes={}, names={}, known={})
+               pairs={}, ood_ref=0, ood_model=0, parse_diff=[], sample=None, modes={}, names={}, known={}, values={})
     try:
         batch = []
         for _ in range(n_cases):
@@ -599,7 +641,7 @@ def work(args):
         for (ast, doc, t), model in zip(batch, replies):
             text = evalgen.render(ast)
             back = parse_ast(text)
-            if back != ast:
+            if back != ast or repr(back) != repr(ast):         # (repr: the literal 1 is not the literal true / 1.0)
                 out['parse_diff'].append(text)
                 continue
             f, info = evaluate_case(ast, doc, model)
@@ -629,6 +671,8 @@ def work(args):
             bump(out['modes'], info['mode'])
             for cls in evalgen.name_classes(ast):
                 bump(out['names'], cls)
+            for cls in evalgen.value_classes(ast, doc):
+                bump(out['values'], cls)
             if f and f[2]:
                 bump(out['known'], f[2])
                 if not any(k == f[2] for _, k, _, _ in out['failures']):
@@ -667,10 +711,12 @@ def run(env, res):
     drv = env['driver']
     use_model = drv is not None
     res.rule = ('type-directed programs of the fragment (generator depth <= 4 quick / <= 6 thorough) over a random JSON-like '
-                'document bound to `$`: 25% scoping scenarios with random parts, 20% lists of independent expressions, the '
+                'document bound to `$`: 30% scoping scenarios with random parts, 20% lists of independent expressions, the '
                 'rest typed expressions; every binding construct is followed by uses of what it bound and by reads of names '
                 'bound elsewhere and of RELATIVES of bound names (snake/camel, trailing / leading underscore, case, digits); '
-                'names of variables / keywords / functions / keys from adversarial pools; 50% single evaluations, 20% a reused '
+                'names of variables / keywords / functions / keys from adversarial pools (also the host implementation\'s own '
+                'vocabulary: value, self, context, args ..); scalars that Python takes for equal (1 / true / 1.0, 0 / false / 0.0 / '
+                '-0.0) as literals, document leaves and arguments of repeated calls; 50% single evaluations, 20% a reused '
                 'Statement after another document, 30% the same host document object mutated in place between evaluations '
                 '(same / fresh Statement); distinct = distinct (text, document); non-trivial = the real evaluation returns '
                 'a value and at least one reference makes a prediction')
@@ -696,7 +742,7 @@ def run(env, res):
     with multiprocessing.Pool(nproc) as pool:
         results = pool.map(work, jobs, chunksize=1)
     hist = dict(outcome={}, real_error_classes={}, ast_depth={}, ast_size={}, result_types={}, constructs={},
-                evaluation_history={}, names_by_class={}, known_finding_hits={})
+                evaluation_history={}, names_by_class={}, known_finding_hits={}, value_situations={})
     pairs, ood_ref, ood_model, n, parse_diff = {}, 0, 0, 0, []
     for out in results:
         for sig, nt in out['cases']:
@@ -714,7 +760,7 @@ def run(env, res):
                          (out['depth'], hist['ast_depth']), (out['size'], hist['ast_size']),
                          (out['types'], hist['result_types']), (out['constructs'], hist['constructs']), (out['pairs'], pairs),
                          (out['modes'], hist['evaluation_history']), (out['names'], hist['names_by_class']),
-                         (out['known'], hist['known_finding_hits'])):
+                         (out['known'], hist['known_finding_hits']), (out['values'], hist['value_situations'])):
             for k, v in src.items():
                 dst[str(k)] = dst.get(str(k), 0) + v
     if parse_diff:
@@ -745,11 +791,16 @@ LEVEL_TEXT = ('Lean 4 theorems, for ALL expressions, contexts, documents and fue
               '`coll.name` = `coll.select($.name)`, more fuel never changes a definite outcome; names are data '
               '(let_names_verbatim, kwarg_names_verbatim, def_names_verbatim: for ALL names, a let / keyword argument / def is '
               'visible exactly under its own normal form - `$`-prefix and `$`=`$1` for variables, trailing underscores for '
-              'functions - and invisible to every other name).  The interpreter is tied to the '
+              'functions - and invisible to every other name); a call of a def-ined function is the body evaluated on the '
+              'argument VALUES of that call and of nothing else (def_call_own_args, def_call_pure, def_calls_independent), values '
+              'being compared structurally, so that 1 / true / 1.0 are three arguments (def_identity_faithful / _injective).  '
+              'The interpreter is tied to the '
               'code by running generated programs (typed generator, scoping scenarios, reads of names bound elsewhere) on the '
               'real engine, on the compiled model and on an independent plain-Python transcription, comparing finalised results / '
-              'exception classes three ways; names come from pools a normalisation would rewrite, and half of the programs are '
-              'the last step of an evaluation history on one engine (reused Statement, host document mutated in place).')
+              'exception classes three ways (types compared at every depth, floats by their bits); names come from pools a '
+              'normalisation would rewrite and from the host implementation\'s own vocabulary, values include the ones Python '
+              'takes for equal (1 / true / 1.0 ...) as literals, document leaves and arguments of repeated calls, and half of the '
+              'programs are the last step of an evaluation history on one engine (reused Statement, host document mutated in place).')
 LEVEL_NOTE = ('trusted: Lean kernel; the hand-written interpreter Yaql/Model/Eval.lean (reusing the value semantics of Model/Seq.lean '
               'and the name normalisation of Model/Context.lean); harness/evalref.py; the renderer (every text is parsed back by '
               'the engine under test and compared with the AST).  "frame" holds by construction of the representation (contexts '
